@@ -39,12 +39,13 @@ type batchIO struct {
 }
 
 type batchModel struct {
-	Name  string
-	Bytes []byte
-	In    map[string]batchIO
-	Out   map[string]int // output name -> batch axis
-	solo  map[int]map[string]*ref.T
-	Big   float64 // > 0: sample 2 of the pool is this many times larger than sample 0 (both signs), sample 1 large and all positive, sample 3 large and all negative
+	Name      string
+	Bytes     []byte
+	In        map[string]batchIO
+	Out       map[string]int // output name -> batch axis
+	solo      map[int]map[string]*ref.T
+	NonFinite bool    // sample 1 of the pool holds +Inf, sample 2 a NaN (in the first per-sample element): 0 * Inf = NaN must not depend on who shares the batch
+	Big       float64 // > 0: sample 2 of the pool is this many times larger than sample 0 (both signs), sample 1 large and all positive, sample 3 large and all negative
 }
 
 // stack concatenates per-sample tensors (extent 1 on axis) along axis.
@@ -72,6 +73,18 @@ func (bm *batchModel) sample(name string, k int) *ref.T {
 		salt += int(c)
 	}
 	t := recFill(ref.F32, io.Shape, salt)
+	if bm.NonFinite && (k == 1 || k == 2) {
+		t0 := t
+		t = ref.Fill(ref.F32, io.Shape, func(i int) float64 {
+			if i == 0 && k == 1 {
+				return math.Inf(1)
+			}
+			if i == 1%len(t0.V) && k == 2 {
+				return math.NaN()
+			}
+			return t0.F(i)
+		})
+	}
 	switch {
 	case bm.Big > 0 && k == 2:
 		t = ref.Fill(ref.F32, io.Shape, func(i int) float64 { return t.F(i) * bm.Big })
@@ -268,6 +281,25 @@ func batchModels(all bool) []*batchModel {
 	mkModel("MatMul-batched/wide(N,8,32)x(32,40)", "x", []hx.DimSpec{N, fx(8), fx(32)}, batchIO{[]int{1, 8, 32}, 0}, nil, []*onnx.NodeProto{hx.Node("MatMul", []string{"x", "W"}, []string{"y"}, nil)}, []*onnx.TensorProto{init("W", 32, 40)}, map[string]int{"y": 0}, nil, nil)
 	mkModel("GRU/wide(seq2,N,24)h32", "x", []hx.DimSpec{fx(2), N, fx(24)}, batchIO{[]int{2, 1, 24}, 1}, nil, []*onnx.NodeProto{hx.Node("GRU", []string{"x", "W", "R", "B"}, []string{"Y", "Yh"}, []hx.Attr{hx.AInt("hidden_size", 32)})}, []*onnx.TensorProto{init("W", 1, 96, 24), init("R", 1, 96, 32), init("B", 1, 192)}, map[string]int{"Y": 2, "Yh": 1}, nil, nil)
 	mkModel("LSTM/wide(seq2,N,24)h32", "x", []hx.DimSpec{fx(2), N, fx(24)}, batchIO{[]int{2, 1, 24}, 1}, nil, []*onnx.NodeProto{hx.Node("LSTM", []string{"x", "W", "R", "B"}, []string{"Y", "Yh", "Yc"}, []hx.Attr{hx.AInt("hidden_size", 32)})}, []*onnx.TensorProto{init("W", 1, 128, 24), init("R", 1, 128, 32), init("B", 1, 256)}, map[string]int{"Y": 2, "Yh": 1, "Yc": 1}, nil, nil)
+	// weights with exact zeros against samples that hold Inf / NaN: every batch size 1..72 (kernels that treat zero
+	// multipliers specially, chosen by the shape of the batch)
+	{
+		zw := func(name string, sh ...int) *onnx.TensorProto {
+			b := recFill(ref.F32, sh, len(name)*3+len(sh))
+			return hx.TensorProto(name, ref.Fill(ref.F32, sh, func(i int) float64 {
+				if i%3 == 0 {
+					return 0
+				}
+				return b.F(i)
+			}), "raw")
+		}
+		mkModel("Gemm{transB}/wide-zero-weights(N,4)x(8,4)", "x", []hx.DimSpec{N, fx(4)}, batchIO{[]int{1, 4}, 0}, nil, []*onnx.NodeProto{hx.Node("Gemm", []string{"x", "Wz"}, []string{"y"}, []hx.Attr{hx.AInt("transB", 1)})}, []*onnx.TensorProto{zw("Wz", 8, 4)}, map[string]int{"y": 0}, nil, nil)
+		out[len(out)-1].NonFinite = true
+		mkModel("Gemm/wide-zero-weights(N,4)x(4,8)", "x", []hx.DimSpec{N, fx(4)}, batchIO{[]int{1, 4}, 0}, nil, []*onnx.NodeProto{hx.Node("Gemm", []string{"x", "Wz2", "bz"}, []string{"y"}, nil)}, []*onnx.TensorProto{zw("Wz2", 4, 8), zw("bz", 8)}, map[string]int{"y": 0}, nil, nil)
+		out[len(out)-1].NonFinite = true
+		mkModel("MatMul/wide-zero-weights(N,4)x(4,8)", "x", []hx.DimSpec{N, fx(4)}, batchIO{[]int{1, 4}, 0}, nil, []*onnx.NodeProto{hx.Node("MatMul", []string{"x", "Wz2"}, []string{"y"}, nil)}, []*onnx.TensorProto{zw("Wz2", 4, 8)}, map[string]int{"y": 0}, nil, nil)
+		out[len(out)-1].NonFinite = true
+	}
 	// the weight as the LEFT operand of a stack of per-sample matrices, small and wide
 	mkModel("MatMul-weight-left(2,3)x(N,3,2)", "x", []hx.DimSpec{N, fx(3), fx(2)}, batchIO{[]int{1, 3, 2}, 0}, nil, []*onnx.NodeProto{hx.Node("MatMul", []string{"Wl", "x"}, []string{"y"}, nil)}, []*onnx.TensorProto{init("Wl", 2, 3)}, map[string]int{"y": 0}, nil, nil)
 	mkModel("MatMul-weight-left(4,3)x(N,3,1)", "x", []hx.DimSpec{N, fx(3), fx(1)}, batchIO{[]int{1, 3, 1}, 0}, nil, []*onnx.NodeProto{hx.Node("MatMul", []string{"Wl4", "x"}, []string{"y"}, nil)}, []*onnx.TensorProto{init("Wl4", 4, 3)}, map[string]int{"y": 0}, nil, nil)
